@@ -281,8 +281,14 @@ impl<T, C: CacheFactory> DataLoader<T, C> {
         T: Loader<K>,
     {
         let tid = TypeId::of::<K>();
-        let mut entry = self.inner.requests.get_async(&tid).await.unwrap();
-        let typed_requests = entry.get_mut().downcast_mut::<Requests<K, T>>().unwrap();
+        let mut entry = self
+            .inner
+            .requests
+            .entry_async(tid)
+            .await
+            .or_insert_with(|| Box::new(Requests::<K, T>::new(&self.cache_factory)));
+
+        let typed_requests = entry.downcast_mut::<Requests<K, T>>().unwrap();
         typed_requests.disable_cache = !enable;
     }
 
@@ -754,6 +760,24 @@ mod tests {
             loader.load_many(vec![1, 2, 3]).await.unwrap(),
             vec![(1, 10), (2, 20), (3, 30)].into_iter().collect()
         );
+    }
+
+    #[tokio::test]
+    async fn test_dataloader_enable_cache_before_first_use() {
+        let loader = DataLoader::with_cache(
+            MyLoader,
+            TokioSpawner::current(),
+            TokioTimer::default(),
+            HashMapCache::default(),
+        );
+
+        // Nothing has been loaded or fed for `i32` yet.
+        loader.enable_cache::<i32>(false).await;
+        loader.feed_many(vec![(1, 10)]).await;
+        assert_eq!(loader.load_one(1).await.unwrap(), Some(1));
+
+        loader.enable_cache::<i32>(true).await;
+        assert_eq!(loader.load_one(1).await.unwrap(), Some(10));
     }
 
     #[tokio::test]
